@@ -42,6 +42,7 @@ type Workload struct {
 	Writer  string    `json:"writer"` // fast | gosched | sleep | gate
 	Sync    bool      `json:"sync_writer"`
 	Toggle  bool      `json:"togglers"`
+	Closer  bool      `json:"closer,omitempty"`         // with SyncWriter: another goroutine calls Close on it meanwhile (as Logger.Fatal or a shutdown path would); Close is a call on the wrapped writer too
 	Console bool      `json:"console_writer,omitempty"` // a ConsoleWriter sits between the logger and the destination
 	ConsNew bool      `json:"console_new,omitempty"`    // ... built by NewConsoleWriter with FieldsOrder and FieldsExclude (fresh per run: every goroutine's first Write races the others')
 	G       [][]Chain `json:"goroutines"`
@@ -91,6 +92,24 @@ func (w *checkWriter) Write(p []byte) (int, error) {
 	return len(p), nil
 }
 
+// Close is one more call on the wrapped writer: under SyncWriter it must not overlap a Write.
+func (w *checkWriter) Close() error {
+	n := atomic.AddInt32(&w.inside, 1)
+	for {
+		m := atomic.LoadInt32(&w.maxIn)
+		if n <= m || atomic.CompareAndSwapInt32(&w.maxIn, m, n) {
+			break
+		}
+	}
+	if w.mode != "fast" {
+		runtime.Gosched()
+	}
+	atomic.AddInt32(&w.inside, -1)
+	return nil
+}
+
+var lastSync io.Writer
+
 type hook struct{}
 
 func (hook) Run(e *zerolog.Event, l zerolog.Level, m string) {
@@ -121,7 +140,8 @@ func loggers(w *checkWriter, syncW bool) []*zerolog.Logger {
 		}
 	}
 	if syncW {
-		out = zerolog.New(zerolog.SyncWriter(dst))
+		lastSync = zerolog.SyncWriter(dst)
+		out = zerolog.New(lastSync)
 	} else {
 		out = zerolog.New(dst)
 	}
@@ -217,6 +237,20 @@ func run(wl *Workload) (msg string, nontrivial bool) {
 			}
 		}()
 	}
+	if wl.Sync && wl.Closer {
+		sw := lastSync
+		tg.Add(1)
+		go func() {
+			defer tg.Done()
+			<-start
+			for i := 0; i < 3; i++ {
+				if c, ok := sw.(io.Closer); ok {
+					c.Close()
+				}
+				runtime.Gosched()
+			}
+		}()
+	}
 	close(start)
 	if wl.Writer == "gate" {
 		time.Sleep(300 * time.Microsecond) // let goroutines pile up inside Write
@@ -279,6 +313,7 @@ func genWorkload(rt *rapid.T, maxG int) *Workload {
 	g.Settings()
 	wl := &Workload{Writer: rapid.SampledFrom([]string{"fast", "gosched", "sleep", "gate"}).Draw(rt, "writer"), Sync: rapid.IntRange(0, 2).Draw(rt, "sync") == 0, Toggle: rapid.Bool().Draw(rt, "toggle"),
 		Console: rapid.IntRange(0, 3).Draw(rt, "console") == 0}
+	wl.Closer = wl.Sync && rapid.Bool().Draw(rt, "closer")
 	wl.ConsNew = wl.Console && rapid.Bool().Draw(rt, "consnew")
 	ng := rapid.IntRange(2, maxG).Draw(rt, "G")
 	for i := 0; i < ng; i++ {
